@@ -39,6 +39,7 @@ type c07Cfg struct {
 	ecn       []protocol.ECN // ECN marks on arriving packets
 	zeroRTT   bool           // application-data packets may also arrive as 0-RTT
 	forget    bool           // packets may carry an ACK that raises the forget-below threshold
+	forgetOld bool           // ... the acknowledged ACK may be any earlier one, not just the most recent
 	dishonest bool           // ... also in a packet numbered below the new threshold
 	drops     bool           // Initial / Handshake spaces may be dropped
 	ticks     bool           // the clock may advance by max_ack_delay/2 and max_ack_delay
@@ -58,6 +59,7 @@ func newC07Inst(cfg *c07Cfg) *c07Inst {
 	in := &c07Inst{cfg: cfg, h: NewReceivedPacketHandler(utils.DefaultLogger), parser: wire.NewFrameParser(false, false, false), now: c07ClockBase}
 	for i := range in.sp {
 		in.sp[i] = newC07Space(c07SpaceName[i], cfg.U[i])
+		in.sp[i].keepAcked = cfg.forgetOld
 	}
 	return in
 }
@@ -75,6 +77,12 @@ func c07Flags(ae bool, ecn protocol.ECN) int {
 func (in *c07Inst) forgetCandidates() []int {
 	s := in.sp[c07App]
 	var c []int
+	if !in.cfg.forgetOld {
+		if s.hasLA && len(s.la) > 0 && int(s.la[0].Largest)+1 > s.T {
+			c = append(c, int(s.la[0].Largest)+1)
+		}
+		return c
+	}
 	for l := 0; l < s.U; l++ {
 		if s.acked[l] && l+1 > s.T {
 			c = append(c, l+1)
@@ -441,8 +449,8 @@ func c07HandlerPart(name string, mk func(e explore.Env) *c07Cfg, what string) ex
 		return explore.BFSSpec{
 			New:              func() explore.Instance { return newC07Inst(cfg) },
 			PanicIsViolation: true,
-			Rule: fmt.Sprintf("BFS to closure over the real ReceivedPacketHandler (%s); universes initial/handshake/appdata = %d/%d/%d packet numbers, ECN marks %v, 0-RTT=%v, forget-below carried by packets=%v (dishonest numbering=%v), drops=%v, clock steps max_ack_delay/2 and max_ack_delay=%v; every arrival is guarded by the real IsPotentiallyDuplicate as in connection.go; state = canon(handler, times relative to the harness clock) + model",
-				what, cfg.U[0], cfg.U[1], cfg.U[2], cfg.ecn, cfg.zeroRTT, cfg.forget, cfg.dishonest, cfg.drops, cfg.ticks),
+			Rule: fmt.Sprintf("BFS to closure over the real ReceivedPacketHandler (%s); universes initial/handshake/appdata = %d/%d/%d packet numbers, ECN marks %v, 0-RTT=%v, forget-below carried by packets=%v (of any earlier ACK=%v, dishonest numbering=%v), drops=%v, clock steps max_ack_delay/2 and max_ack_delay=%v; every arrival is guarded by the real IsPotentiallyDuplicate as in connection.go; state = canon(handler, times relative to the harness clock) + model",
+				what, cfg.U[0], cfg.U[1], cfg.U[2], cfg.ecn, cfg.zeroRTT, cfg.forget, cfg.forgetOld, cfg.dishonest, cfg.drops, cfg.ticks),
 		}
 	})
 }
